@@ -351,3 +351,45 @@ def replay_sample_seed(start_seed, n):
         np.random.default_rng = real_rng
         T.sensitivity_command = real_cmd
         shutil.rmtree(d, ignore_errors=True)
+
+
+def tool_columns(tier="quick"):
+    """Concrete validation runs of the real tools on small traces (translator validation + the structural
+    clauses: same pipelines, other columns untouched, stable order)."""
+    res = Result()
+    for (dl, sd) in ((0.0, 1), (0.5, 7), (0.001, 3), (10.0, 42), (1e-9, 5)):
+        rep = replay_jitter(dl, sd)
+        if rep:
+            return res.out("violated", rep, {"replay": {"kind": "kn", "func": "vf.kernels.c20:replay_jitter", "args": dict(delta=dl, seed=sd)}})
+    for tp in (1, 3, 10, 20, 100, 1000):
+        rep = replay_snap_trace(tp)
+        if rep:
+            return res.out("violated", rep, {"replay": {"kind": "kn", "func": "vf.kernels.c20:replay_snap_trace", "args": dict(tps=tp)}})
+    res.queries = 0
+    return res.out("discharged", "real jitter_command / snap_command on a 4-pipeline trace: pipelines, row grouping and every non-arrival cell preserved; jitter sorted and reproducible")
+
+
+def replay_snap_trace(tps):
+    import_repo()
+    import tempfile, os, io, contextlib, csv, shutil
+    from eudoxia.tools import snap_command
+    d = tempfile.mkdtemp(prefix="vsnapt_")
+    try:
+        src, dst = os.path.join(d, "in.csv"), os.path.join(d, "out.csv")
+        open(src, "w").write(TRACE)
+        with contextlib.redirect_stdout(io.StringIO()):
+            snap_command(src, dst, tps, force=True)
+        ri = list(csv.DictReader(io.StringIO(TRACE)))
+        ro = list(csv.DictReader(open(dst)))
+        if len(ri) != len(ro):
+            return "C20:snap_changed_row_count"
+        for x, y in zip(ri, ro):
+            for col in x:
+                if col == "arrival_seconds":
+                    if bool(x[col].strip()) != bool(y[col].strip()):
+                        return "C20:snap_changed_which_rows_carry_an_arrival"
+                elif x[col] != y[col]:
+                    return f"C20:snap_changed_column_{col}"
+        return ""
+    finally:
+        shutil.rmtree(d, ignore_errors=True)
